@@ -72,3 +72,30 @@ pub open spec fn Committee_group(x: Committee) -> Seq<Tok> { seq![Tok::Map(x.mem
 pub open spec fn UpdateCommitteeAction_enc(x: UpdateCommitteeAction) -> Seq<Tok> {
     seq![Tok::Arr(5), Tok::UInt(4)] + opt_null(x.gov_action_id) + x.members_to_remove.enc() + Committee_group(x.committee)
 }
+pub open spec fn TransactionMetadatumEnum_enc(x: TransactionMetadatumEnum) -> Seq<Tok> {
+    match x {
+        TransactionMetadatumEnum::MetadataMap(m) => m.enc(), TransactionMetadatumEnum::MetadataList(l) => l.enc(), TransactionMetadatumEnum::Int(i) => i.enc(),
+        TransactionMetadatumEnum::Bytes(b) => seq![Tok::Bytes(b@)], TransactionMetadatumEnum::Text(t) => seq![Tok::Text(t@)],
+    }
+}
+pub open spec fn aux_entry<T: Ser>(k: u64, o: Option<T>) -> Seq<Tok> { match o { Some(x) => seq![Tok::UInt(k)] + x.enc(), None => Seq::empty() } }
+pub open spec fn aux_plutus(o: Option<PlutusScripts>) -> Seq<Tok> {
+    match o {
+        Some(p) => seq![Tok::UInt(2)] + p.enc_ver(lang_v1())
+            + (if p.has(lang_v2()) { seq![Tok::UInt(3)] + p.enc_ver(lang_v2()) } else { Seq::empty() })
+            + (if p.has(lang_v3()) { seq![Tok::UInt(4)] + p.enc_ver(lang_v3()) } else { Seq::empty() }),
+        None => Seq::empty(),
+    }
+}
+pub open spec fn aux_count(x: AuxiliaryData) -> int {
+    (if x.metadata is Some { 1int } else { 0 }) + (if x.native_scripts is Some { 1int } else { 0 })
+    + (match x.plutus_scripts { Some(p) => 1 + (if p.has(lang_v2()) { 1int } else { 0 }) + (if p.has(lang_v3()) { 1int } else { 0 }), None => 0 })
+}
+/// the compact Shelley / Shelley-MA forms are kept when there is metadata, no Plutus script and the Alonzo form is not asked for
+pub open spec fn AuxiliaryData_enc(x: AuxiliaryData) -> Seq<Tok> {
+    if !x.prefer_alonzo_format && x.metadata is Some && x.plutus_scripts is None {
+        match x.native_scripts { Some(ns) => seq![Tok::Arr(2)] + x.metadata->Some_0.enc() + ns.enc(), None => x.metadata->Some_0.enc() }
+    } else {
+        seq![Tok::Tag(259), Tok::Map(aux_count(x) as u64)] + aux_entry(0, x.metadata) + aux_entry(1, x.native_scripts) + aux_plutus(x.plutus_scripts)
+    }
+}
